@@ -48,6 +48,8 @@ MAY_PANIC = [
     (r"char::from_digit|from_u32_unchecked|RangeInclusive|Duration", "misc"),
 ]
 MAY_PANIC_RE = [(re.compile(p), n) for p, n in MAY_PANIC]
+CMP_IMPL_RE = re.compile(r"<(std::boxed::Box<\[[^\]]*\]>|\[[^\]]*\]|&?\[[^\]]*\]) as (std|core)::cmp::(PartialEq|PartialOrd|Eq|Ord)(<.*>)?>::(eq|ne|lt|le|gt|ge|partial_cmp|cmp)$"
+                         r"|slice::cmp::<impl (std|core)::cmp::(PartialEq|PartialOrd|Eq|Ord)(<.*>)? for \[[^\]]*\]>::(eq|ne|lt|le|gt|ge|partial_cmp|cmp)$")
 
 ALLOCATES = [
     r"\bvec::from_elem\b", r"\bVec(::<.*>)?::", r"\bvec::Vec\b", r"\bboxed::Box\b", r"\bBox(::<.*>)?::new\b", r"\bexchange_malloc\b",
@@ -186,6 +188,8 @@ def classify(callee, crate="ta", local_traits=()):
         return ("forbidden", name)
     if UNBOUNDED_RE.search(both):
         return ("unknown", "unbounded iterator source " + name)
+    if CMP_IMPL_RE.search(name):
+        return ("pure", name)   # comparisons of owned plain data (derived PartialEq reaches Box<[f64]>::eq): no panic, no allocation
     for rx, fam in MAY_PANIC_RE:
         if rx.search(name) or rx.search(generic_name):
             return ("may_panic", fam)
